@@ -802,7 +802,7 @@ fn main() {
     while i < args.extra.len() {
         match args.extra[i].as_str() { "--cli" => { cli = Some(PathBuf::from(&args.extra[i + 1])); i += 2; } "--no-node" => { use_node = false; i += 1; } _ => { i += 1; } }
     }
-    let cases = Cases::new("From V Require Import Base.Util Gql.Ast Writer.Wop C16.Model C16.Spec C16.Corr.", "case", "agree", "holds", if thorough { 300 } else { 170 });
+    let cases = Cases::new("From V Require Import Base.Util Gql.Ast Writer.Wop C16.Model C16.Spec C16.Corr.", "case", "agree", "holds", if thorough { 800 } else { 170 });
     let mut out = Out { cases, distinct: HashSet::new(), stats: BTreeMap::new(), reparse_fail: 0 };
 
     // 0. corpus: witnesses of the known findings and past disagreements
@@ -817,7 +817,7 @@ fn main() {
 
     // 1. print_string: every string over an adversarial alphabet up to a length, then random longer ones
     let alpha: Vec<char> = vec!['a', '"', '\\', '\n', '\r', '`', '$', '{', ' ', '\u{7}', '\u{e9}'];
-    let maxlen = if thorough { 4 } else { 2 };
+    let maxlen = if thorough { 5 } else { 2 };
     let mut cur: Vec<String> = vec![String::new()];
     for _ in 0..maxlen {
         let mut next = vec![];
